@@ -20,7 +20,7 @@ RULE = ("histories of add/remove/remove-absent/add-present/draw/contains/len/ite
         "the concrete operation sequence")
 ASSUMPTIONS = ["model = builtin set", "draw() is observed through the module-level random used by draw_set.py; "
                "if no choice() call is seen the exact drawability part falls back to seeded sampling",
-               "structural invariant (_edges/_edge_hashmap agree) is auxiliary and only evaluated if those attributes exist"]
+               "the look at the private containers (_edges/_edge_hashmap agree) is a diagnostic that only decides how hard a history is driven on (closing drain and refill); verdicts come from len, iteration, membership, draws and raises alone"]
 HEADLINE = ["ops", "add_new", "add_present", "remove_present", "remove_middle", "remove_last_slot", "remove_to_empty",
             "remove_absent_raised", "draws", "exact_draw_points", "invariant_evals"]
 REQUIRED = {"quick": {"remove_middle": 50, "remove_to_empty": 50, "remove_absent_raised": 50, "add_present": 50,
@@ -140,7 +140,17 @@ def install_invariant():
     import gcmpy.tools.draw_set as ds
 
     def structure_consistent(self):
+        """DIAGNOSTIC, never a verdict: the property is about the set's behaviour, and an implementation that keeps its index in another
+        shape (keyed by hash with collision handling, buckets, ...) is as right as the anchored one.  A disagreement between the private
+        containers is only counted; the history it was seen in is then driven on (every member removed one by one and re-inserted, the
+        whole interface compared after each step) so that a latent corruption has to show in behaviour."""
         _contract["evals"] += 1
+        ok = _anchored_representation_consistent(self)
+        if not ok:
+            _contract["suspect"] = _contract.get("suspect", 0) + 1
+        return True
+
+    def _anchored_representation_consistent(self):
         if not (hasattr(self, "_edges") and hasattr(self, "_edge_hashmap")):
             return True
         if len(self._edges) != len(self._edge_hashmap):
@@ -202,9 +212,6 @@ def _one_history(rng, res, DrawSet):
             got = sut("contains", lambda: q in D)
             if bool(got) != (x in M):
                 res.violate("membership-differs", after=after, element=x, got=got, ops=ops, universe=u); return False
-        fn = _contract.get("fn")
-        if fn is not None and not fn(D):
-            res.violate("structural-invariant-broken", after=after, ops=ops, universe=u); return False
         return True
 
     with installed(tap, "drawset"):
@@ -324,6 +331,27 @@ def _one_history(rng, res, DrawSet):
                     seen.add(d)
                 if len(seen) != n:
                     res.violate("member-never-drawn-in-60n-draws", after=k, missing=[x for x in M if x not in seen], ops=ops); return
+        # closing phase: what the history left behind has to carry a complete drain and refill.  Always run when the diagnostic saw the
+        # private containers disagree, and in a quarter of the other histories.
+        suspect = _contract.pop("suspect", 0)
+        if suspect:
+            res.count("histories_in_which_the_private_containers_disagreed_(diagnostic_only)")
+        if suspect or rng.random() < 0.25:
+            res.count("closing_drain_and_refill_phases")
+            members = sorted(M, key=repr)
+            rng.shuffle(members)
+            for x in members:
+                sut("remove", D.remove, _clone(x)); M.discard(x)
+                if not compare("closing drain, removed %r" % (x,)):
+                    return
+            for x in u:
+                sut("add", D.add, _clone(x)); M.add(x)
+                if not compare("closing refill, added %r" % (x,)):
+                    return
+            for x in rng.sample(u, max(1, len(u) // 2)):
+                sut("remove", D.remove, _clone(x)); M.discard(x)
+                if not compare("closing phase, removed %r again" % (x,)):
+                    return
     return (mids > 0 and empt > 0), digest([kind, u, ops]), {"universe": u, "style": style, "ops": ops}
 
 
